@@ -1055,7 +1055,8 @@ var basicObjects = []*ObjectSchema{
 			),
 			"multipliers": NewPropertySchema(
 				NewMapSchema(
-					NewIntSchema(nil, nil, nil),
+					// A multiplier says how many base units the unit is worth: it is positive.
+					NewIntSchema(IntPointer(1), nil, nil),
 					NewRefSchema("Unit", nil),
 					nil,
 					nil,
